@@ -71,6 +71,13 @@ def part(prop, out, with_render=False):
     cands = [c for c in run_kernel(R, vc.tier()) if c['prop'] == prop]
     if with_render:
         cands += [c for c in K.k_render_field(R, 2 if vc.tier() == 'quick' else 3, {prop}) if c['prop'] == prop]
+        # "a non-list where a list is required fails" rests on every list level of the type expression reaching the generated
+        # type: the two type-reference kernels (SDL AST, introspection TypeRef chain), counterexamples replayed as payloads
+        depth = 4 if vc.tier() == 'quick' else 6
+        for c in K.k_resolve_field_type(R, depth) + K.k_from_json_type(R, depth):
+            ql = c['qualifiers']
+            if not any(a == 'R' and b == 'R' for a, b in zip(ql, ql[1:])):
+                cands.append(dict(kernel='nesting:' + c['kernel'], prop=prop, what='nesting:' + c['kernel'], model=dict(qualifiers=ql, via='json' if c['kernel'] == 'from_json_type_inner' else 'sdl')))
     C = consumer.Consumer(sc)
     seen = set()
     replayed = 0
@@ -81,6 +88,8 @@ def part(prop, out, with_render=False):
         seen.add(role)
         if c['kernel'] == 'abstract_selection':
             ok, desc, rp = confirm(C, c['model'], other_variant=c['model'].get('fragments_other_variant', False))
+        elif c['kernel'].startswith('nesting:'):
+            ok, desc, rp = confirm_nesting(C, c['model'])
         else:
             ok, desc, rp = confirm_required(C, c['model'])
         replayed += 1
@@ -95,6 +104,36 @@ def part(prop, out, with_render=False):
     ev = R.evidence()
     ev.update(paths=R.paths, obligations=R.obligations, discharged=R.discharged, replayed=replayed, samples=R.samples[:3])
     return ev
+
+
+def confirm_nesting(C, model):
+    """every payload that puts a scalar where the type expression requires a list must be rejected"""
+    ql, via = model['qualifiers'], model.get('via', 'sdl')
+    expr = K.graphql_type_expr(ql, 'Int')
+    sdl = f'schema {{ query: Query }}\ntype Query {{ f: {expr} g: Int }}\n'
+    query = 'query Q { f g }\n'
+    rp = dict(schema=sdl, query=query, model=model)
+    if via == 'json':
+        import gql
+        import introspect
+        err = C.build(introspect.to_introspection(gql.parse_schema(sdl)), query, 'Q', 'q', schema_ext='json')
+    else:
+        err = C.build(sdl, query, 'Q', 'q')
+    if err:
+        return None, 'consumer crate does not compile: ' + err[-300:].replace('\n', ' | '), rp
+    depth = sum(1 for q in ql if q == 'L')
+
+    def value(levels, cut):
+        # nested singleton lists `levels` deep; at depth `cut` a scalar stands where the list should be
+        if levels == 0 or cut == 0:
+            return 7
+        return [value(levels - 1, cut - 1)]
+    bad = [{'f': value(depth, cut), 'g': 1} for cut in range(depth)]
+    res = C.run('response', bad)
+    for p_, (st, val) in zip(bad, res):
+        if st == 'ok':
+            return False, f'`f: {expr}` ({via}): the payload {json.dumps(p_)} with a scalar where a list is required is accepted as {json.dumps(val)}', rp
+    return True, 'non-lists rejected', rp
 
 
 def confirm_required(C, model):
